@@ -45,6 +45,9 @@ const c03Schema = `{"name":"TYP","version":"1.0.0","tables":{"T":{"columns":{
  "mis":{"type":{"key":{"type":"integer"},"value":{"type":"string"},"min":0,"max":"unlimited"}},
  "mus":{"type":{"key":{"type":"uuid"},"value":{"type":"string"},"min":0,"max":"unlimited"}},
  "msu":{"type":{"key":{"type":"string"},"value":{"type":"uuid"},"min":0,"max":"unlimited"}},
+ "ei":{"type":{"key":{"type":"integer","enum":["set",[1,2,3]]}}},
+ "er":{"type":{"key":{"type":"real","enum":["set",[0.5,1.5]]}}},
+ "se":{"type":{"key":{"type":"string","enum":["set",["a","b","c"]]},"min":0,"max":"unlimited"}},
  "imm":{"type":"string","mutable":false}
 },"indexes":[["i"]]}}}`
 
@@ -58,6 +61,9 @@ var (
 // universe of values per column (first = default)
 func c03Universe(c *rm.Col, level int) []rm.Value {
 	atoms := func(t string) []rm.Atom {
+		if len(c.Enum) > 0 && t == c.KeyT && !c.IsMap {
+			return c.Enum // only members: libovsdb does not check membership, which is not the subject here
+		}
 		switch t {
 		case "integer":
 			return []rm.Atom{rm.I(0), rm.I(1), rm.I(2), rm.I(-3)}
